@@ -86,6 +86,7 @@ PROPS = {
                 "registered before the erase. Exploration only.",
         "assumptions": ["'in use when the erase happened' is read as: the handle's first access returned before erase() was called", "4 fibers x 4/6 operations, lists of <= ~10 elements"],
         "stages": [{"family": "rcu", "flavour": "plain", "target": "C05f", "cases": (150000, 2000000), "maxsec": (20, 200)},
+                   {"family": "rcu", "flavour": "plain", "target": "C13b", "cases": (15000, 200000), "maxsec": (25, 250)},
                    {"family": "rcu", "flavour": "plain", "target": "C05", "cases": (600000, 8000000), "maxsec": (45, 420)}],
     },
     "C09": {
@@ -189,7 +190,8 @@ PROPS = {
         "assumptions": ["list destroyed only after all handles are released (as the property states)"],
         "stages": [{"family": "rcu", "flavour": "plain", "target": "C13", "cases": (500000, 6000000), "maxsec": (40, 400)},
                    {"family": "rcu", "flavour": "plain", "target": "C13f", "cases": (300000, 4000000), "maxsec": (30, 300)},
-                   {"family": "rcu", "flavour": "plain", "target": "C12r", "cases": (100000, 1500000), "maxsec": (20, 200)}],
+                   {"family": "rcu", "flavour": "plain", "target": "C12r", "cases": (100000, 1500000), "maxsec": (20, 200)},
+                   {"family": "rcu", "flavour": "plain", "target": "C13b", "cases": (20000, 300000), "maxsec": (30, 300)}],
     },
     "C06": {
         "level": "exploration",
@@ -220,7 +222,9 @@ PROPS = {
                 "(all try forms; full traversal for rcu) while the writer is frozen; any contended lock, condition wait or yield-spin inside the acquisition, or failure to finish, is a violation; the "
                 "thawed writer must finish once handles are released. Exploration over generated (op, freeze point, reader variant, schedule).",
         "assumptions": ["'visible step' granularity = modelled mutex/atomic/cv operations and payload access windows"],
-        "stages": [{"family": "c14", "flavour": "plain", "target": "C14", "cases": (500000, 6000000), "maxsec": (40, 400)}],
+        "stages": [{"family": "c14", "flavour": "plain", "target": "C14", "cases": (500000, 6000000), "maxsec": (40, 400)},
+                   # real threads: shared handles handed from thread to thread (no fiber model of thread_local / per-thread state), writer must still complete
+                   {"family": "rt", "flavour": "tsan", "target": "RTlr", "cases": (3000, 60000), "maxsec": (25, 300), "stochastic": True, "min_nontrivial_frac": 0.5}],
     },
     "C15": {
         "level": "exploration",
